@@ -42,7 +42,9 @@ this prelude, on every run. What is *assumed* about Go here (the translator's se
   a `*rand.Rand` is the list of the draws it will return (`rngFloat64`; asking for more than were supplied is a fuel
   fault); `time.Now()` / `time.Since(t)` read the parameter `now` of the translated function (one reading per call);
 * an `interface{}` is an `AnyV` (nil, a `[]byte`, a `string`, or some other dynamic type); `json.Unmarshal(data, &s)` into
-  a string is the parameter `jsonDecode` of the translated function (what it decodes, `none` = an error).
+  a string is the parameter `jsonDecode` of the translated function (what it decodes, `none` = an error);
+* an `*http.Request` is an `HttpReq` (body as `BodyV`, `GetBody` as the answers of its calls, header map with canonical
+  keys); of a struct listed under `prune` only the fields the translated functions select are declared.
 -/
 namespace GoSSE.GoRT
 open GoSSE
@@ -183,6 +185,42 @@ def anyIsBytes : AnyV → Bool | .bytes _ => true | _ => false
 def anyIsStr : AnyV → Bool | .str _ => true | _ => false
 def anyBytes : AnyV → Bytes | .bytes b => b | _ => []
 def anyStr : AnyV → Bytes | .str s => s | _ => []
+
+/-- A request body (`io.ReadCloser`) as the translated code can tell it apart: nil, `http.NoBody`, or some reader
+identified by a tag -/
+inductive BodyV
+  | nil
+  | noBody
+  | tag (k : Nat)
+deriving DecidableEq, Repr, Inhabited
+
+/-- `textproto.CanonicalMIMEHeaderKey` for keys made of letters, digits and `-` (what the translated code passes):
+the first letter and every letter after a `-` in upper case, the others in lower case -/
+def canonKey (k : Bytes) : Bytes :=
+  let up (b : UInt8) : UInt8 := if 97 ≤ b ∧ b ≤ 122 then b - 32 else b
+  let lo (b : UInt8) : UInt8 := if 65 ≤ b ∧ b ≤ 90 then b + 32 else b
+  (k.foldl (fun (acc : Bytes × Bool) b => (acc.1 ++ [if acc.2 then up b else lo b], b == 45)) ([], true)).1
+
+/-- An `*http.Request` as the translated code uses it (external type, written out here): its body, its `GetBody`
+function — nil, or what its k-th call answers (`gbCalls` = calls made so far) — and its header map
+(canonical key ↦ values). -/
+structure HttpReq where
+  Body : BodyV
+  GetBody : Option (Nat → BodyV × Option String)
+  gbCalls : Nat
+  Header : List (Bytes × List Bytes)
+
+instance : Inhabited HttpReq := ⟨⟨.nil, none, 0, []⟩⟩
+
+/-- `r.GetBody()` (a nil function value panics) -/
+def httpGetBody (r : HttpReq) : GoM (BodyV × Option String × HttpReq) :=
+  match r.GetBody with
+  | none => throw (.panic "invalid memory address or nil pointer dereference")
+  | some f => pure ((f r.gbCalls).1, (f r.gbCalls).2, { r with gbCalls := r.gbCalls + 1 })
+
+/-- `http.Header.Del` / `Set` -/
+def headerDel (h : List (Bytes × List Bytes)) (k : Bytes) : List (Bytes × List Bytes) := h.filter fun e => e.1 != canonKey k
+def headerSet (h : List (Bytes × List Bytes)) (k v : Bytes) : List (Bytes × List Bytes) := headerDel h k ++ [(canonKey k, [v])]
 
 /-- The field source of event.go (`*parser.Parser`, which is not translated: the split wrapper `parser.New` installs
 writes to the parser from inside `bufio.Scanner.Scan`): a state, what `Next(&f)` answers — whether there is a field,
